@@ -343,19 +343,27 @@ class StmtMixin(BuiltinMixin):
         return v
 
     def run_handlers(self, s: ast.Try, st: State, ctx: Ctx, oc: Raise):
-        cls = META[oc.exc.oid].cls
+        out = []
+        pending = [st]
         for h in s.handlers:
-            hc = self.handler_classes(h, st, ctx)
-            if self.is_subclass(cls, hc):
-                if h.name:
-                    self.assign_name(h.name, oc.exc, st, ctx)
-                hctx = ctx.sub(handling=ctx.handling + (oc.exc,))
-                res = self.exec_block(h.body, st, hctx)
-                if h.name:
-                    for s3, _ in res:
-                        s3.heap[ctx.frame.oid].pop(h.name, None)
-                return res
-        return [(st, oc)]
+            nxt = []
+            for cur in pending:
+                hc = self.handler_classes(h, cur, ctx)
+                for s2, match in self.split_exc(cur, oc.exc, hc):
+                    if not match:
+                        nxt.append(s2)
+                        continue
+                    if h.name:
+                        self.assign_name(h.name, oc.exc, s2, ctx)
+                    hctx = ctx.sub(handling=ctx.handling + (oc.exc,))
+                    res = self.exec_block(h.body, s2, hctx)
+                    if h.name:
+                        for s3, _ in res:
+                            s3.heap[ctx.frame.oid].pop(h.name, None)
+                    out.extend(res)
+            pending = nxt
+        out.extend((s2, oc) for s2 in pending)
+        return out
 
     # ------------------------------------------------------------------ with
     def st_With(self, s, st, ctx):
@@ -364,9 +372,43 @@ class StmtMixin(BuiltinMixin):
     def st_AsyncWith(self, s, st, ctx):
         return self.exec_with_items(list(s.items), s.body, st, ctx, True, s.lineno)
 
+    def desugar_exit_stack(self, items, body):
+        """`with ExitStack() as s: s.enter_context(A); s.enter_context(B)`  ==  `with A: with B: pass`
+        (only this shape: a body made solely of enter_[async_]context statements)."""
+        if len(items) != 1 or not isinstance(items[0].context_expr, ast.Call) or not isinstance(items[0].optional_vars, ast.Name):
+            return None
+        fn_txt = ast.unparse(items[0].context_expr.func)
+        if not fn_txt.endswith("ExitStack") or items[0].context_expr.args:
+            return None
+        name = items[0].optional_vars.id
+        cms = []
+        for stmt in body:
+            if not isinstance(stmt, ast.Expr):
+                return None
+            v = stmt.value
+            is_async = isinstance(v, ast.Await)
+            if is_async:
+                v = v.value
+            if not (isinstance(v, ast.Call) and isinstance(v.func, ast.Attribute) and isinstance(v.func.value, ast.Name) and v.func.value.id == name
+                    and v.func.attr in ("enter_context", "enter_async_context") and len(v.args) == 1):
+                return None
+            cms.append((v.args[0], v.func.attr == "enter_async_context", stmt))
+        if not cms:
+            return None
+        inner: list[ast.stmt] = [ast.Pass()]
+        for expr, is_async, stmt in reversed(cms):
+            w = (ast.AsyncWith if is_async else ast.With)(items=[ast.withitem(context_expr=expr, optional_vars=None)], body=inner)
+            ast.copy_location(w, stmt)
+            ast.fix_missing_locations(w)
+            inner = [w]
+        return inner
+
     def exec_with_items(self, items, body, st, ctx, is_async, line):
         if not items:
             return self.exec_block(body, st, ctx)
+        ds = self.desugar_exit_stack(items, body)
+        if ds is not None:
+            return self.exec_block(ds, st, ctx)
         item, rest = items[0], items[1:]
 
         def run_body(s2: State, val: Any):
@@ -401,7 +443,7 @@ class StmtMixin(BuiltinMixin):
                     continue
                 for s3, oc in run_body(s2, v):
                     if isinstance(oc, Raise):
-                        ecls = META[oc.exc.oid].cls
+                        ecls = ("$exctype", oc.exc)
                         for s4, r in self.call_method(s3, ctx, cm, exit_, [ecls, oc.exc, None], {}, line):
                             if isinstance(r, Raise):
                                 out.append((s4, r))
